@@ -101,8 +101,11 @@ def rule_cwd_taint(ctx, r):
                 r.check(f.key in allowed, f"{f.module.relpath}::{f.qual}::{canon}", allowed.get(f.key, ""),
                         f"{f.qual} reads the invoking directory ({canon}): paths, graph or state location would depend on where gwf is started", loc(node, f.module))
             if canon in ("os.path.abspath", "os.path.relpath") and isinstance(node, ast.Call) and node.args:
+                from ..astutil import single_assignments
                 a = node.args[0]
-                joined = isinstance(a, ast.Call) and idx.canon(a.func, f.module) == "os.path.join" and a.args and "working_dir" in ast.unparse(a.args[0])
+                if isinstance(a, ast.Name):
+                    a = single_assignments(f.node).get(a.id, a)
+                joined = isinstance(a, ast.Call) and isinstance(a.func, (ast.Name, ast.Attribute)) and idx.canon(a.func, f.module) == "os.path.join" and a.args and "working_dir" in ast.unparse(a.args[0])
                 n += 1
                 r.check(joined or f.key in allowed, f"{f.module.relpath}::{f.qual}::{canon}", "abspath of a path joined to a working directory",
                         f"`{ast.unparse(node)[:70]}` resolves a path against the invoking directory (it is not joined to a project/target working directory first)",
